@@ -237,6 +237,10 @@ def floor(x):
     k = x.t.get((), Fraction(0))
     ki = k.numerator // k.denominator if k.denominator == 1 else 0
     rest = x - ki
+    # integer-valued monomials (integer coefficient, natural powers of integral atoms) commute out of floor as well: floor(p + n) = floor(p) + n
+    whole = P({m: c for m, c in rest.t.items() if m and _integral(P({m: c}))})
+    if whole.t and len(whole.t) < len(rest.t):
+        return floor(rest - whole) + whole + ki
     if rest.is_const():
         c = rest.const_value()
         return P.const(c.numerator // c.denominator + ki)
